@@ -65,6 +65,22 @@ func (w *World) projSupplyQueries(ctx sdk.Context) J {
 		return false
 	})
 	out["denoms"] = den
+	// the per-denomination supply query for EVERY denomination the bank knows (foreign ones must be reported unchanged)
+	soAll := J{}
+	for _, dd := range den {
+		d := dd.(string)
+		r, err := k.SupplyOf(g, &enttypes.QuerySupplyOfRequest{Denom: d})
+		if err != nil {
+			soAll[d] = int64(-1)
+			continue
+		}
+		if r.Amount.Denom != d {
+			soAll[d] = int64(-2)
+			continue
+		}
+		soAll[d] = absInt(r.Amount.Amount)
+	}
+	out["supplyOfAll"] = soAll
 	if es, err := k.EnterpriseSupply(g, &enttypes.QueryEnterpriseSupplyRequest{}); err == nil {
 		out["entSupply"] = J{"denom": es.Supply.Denom, "total": absU64(es.Supply.Total), "locked": absU64(es.Supply.Locked), "unlocked": absU64(es.Supply.Amount)}
 	}
